@@ -8,6 +8,8 @@ from ..mon import exec_mon
 from ..ref import refcoerce, refexec
 from ..ref.refcoerce import Var
 
+THOROUGH_SCALE = 8.0
+
 RULE = (
     "validate_ast is run on: valid-by-construction documents; every labelled rule violation of "
     "G-RULEBREAK; adversarial IR mutants (identical duplicate fields with list / object / null / "
@@ -476,7 +478,7 @@ def run(ctx):
                 for mop, mt in mutate.char_mutants(rng, text, 4):
                     validate_and_maybe_execute(ctx, rng, case, mt, "char-mutant:" + mop, None, None, amb)
         # many more schemas with accepted documents only: executed, data compared with the reference shape
-        for ci in range(ctx.n(30)):
+        for ci in range(ctx.n(70)):
             case = exec_mon.Case(rng, "c05v:%d:%d:%d" % (ctx.seed, ctx.shard, ci), world_kw={"p_error": 0.05, "p_null_in_nonnull": 0.0})
             case.sdl = S.to_sdl(case.ir)[0]
             try:
